@@ -260,8 +260,12 @@ def run_property(prop, tier="quick", root="/repo/verde", overlay=None, write=Tru
                     c4, _c, _l = run_property(prop, "quick", root=root, overlay=full, write=False, quiet=True)
                 except Exception:  # noqa: BLE001
                     c4 = 2
-                sd.append({"change": d.name, "applied": True, "reported": c3 == 1, "reported_after_rewrites": c4 == 1})
-                if c3 != 1 or c4 != 1:
+                # a change whose defect IS the in-place form of an update (an aliased array scaled in place, an in-place product that cannot
+                # broadcast) is repaired by the rewrite `x OP= y -> x = x OP y`, which is behaviour-preserving on the clean tree only: for those
+                # meta.json says so ("rewrites_remove_defect") and only the verdict on the patched tree as written is required
+                gone = bool(meta.get("rewrites_remove_defect"))
+                sd.append({"change": d.name, "applied": True, "reported": c3 == 1, "reported_after_rewrites": c4 == 1, "rewrites_remove_defect": gone})
+                if c3 != 1 or (c4 != 1 and not gone):
                     code = 2
                     lines.append("ANALYSIS-ERROR property=%s seeded change %s is no longer reported (exit %d, after rewrites %d): insensitive rule" % (prop, d.name, c3, c4))
             ctx.extra_coverage["seeded_changes"] = sd
